@@ -108,6 +108,10 @@ class RunModel:
     # ---- hooks
     def getattr(self, it, obj, name, node):
         g = it.p.ghost
+        if is_z3(obj) and obj.sort() == self.Job and name == "cancel":
+            def cancel(it2, n2, *a, **k):
+                it2.p.ghost["cancelled"] = True
+            return Builtin("Task.cancel", cancel)
         if isinstance(obj, WorldR):
             if name == "time_resolution":
                 return self.tr
@@ -209,6 +213,10 @@ class RunModel:
     def await_value(self, it, v, e, env):
         if isinstance(v, GatherR):
             it.p.ghost["gathers"] = it.p.ghost["gathers"] + [(v.arr, it.p.ghost["created"], v.return_exceptions)]
+            if not v.return_exceptions and it.decide(it.p.fresh("an_awaited_job_fails", "bool")):
+                # gather passes the first failure of an awaited job on at once (the other jobs keep running)
+                it.p.ghost["gather_failed"] = True
+                it.raise_("SimulationError", e, implicit="a job awaited by gather failed")
             return Opaque("gather result")
         if isinstance(v, WaitR):
             it.p.ghost["waits"] = it.p.ghost.get("waits", []) + [v.arr]
@@ -322,12 +330,19 @@ class Run(Contract):
     # ---- exceptions
     @property
     def raises(self):
-        return {"ValueError": lambda A: (self._rt <= 0) if self._rt is not None else False}
+        return {"ValueError": lambda A: (self._rt <= 0) if self._rt is not None else False,
+                # the failure of a simulator (setup_done or its process) ends run() with that error
+                "SimulationError": lambda A: bool(self._p.ghost.get("gather_failed"))}
 
     def raise_post(self, A, e):
         g = self._p.ghost
         j = z3.Const("j!rp", self._M.Job)
-        return z3.ForAll([j], g["created"][j] == 0) if e.cls == "ValueError" else True
+        if e.cls == "ValueError":
+            return z3.ForAll([j], g["created"][j] == 0)
+        # C14: run() itself does not cancel the processes of the other simulators -- they may be in the middle of a request to a
+        # remote simulator (cancelling that request breaks the channel's reader, after which RemoteProxy.stop() waits for ever);
+        # World.shutdown() cancels what is left AFTER every simulator has been stopped
+        return z3.BoolVal(not g.get("cancelled"))
 
     # ---- success
     def split_post(self, A, result):
@@ -427,6 +442,15 @@ class Run(Contract):
                                f"returned after 3 s (events {order})")
             if "setup_fails" in m or "process_fails" in m:
                 ok = isinstance(err, ConnectionResetError) and ("setup_fails" not in m or "proc" not in order)
+                if m.get("others_wait_forever"):
+                    # run() leaves the processes of the other simulators alone (World.shutdown cancels them after the simulators
+                    # have been stopped): cancelling a process in the middle of a remote request breaks the channel
+                    touched = [s.sid for s in w.sims.values() if s.task is not None and (s.task.cancelled() or s.task.cancelling())]
+                    if touched:
+                        for t in asyncio.all_tasks(w.loop):
+                            t.cancel()
+                        return False, (f"run() with {n} simulators where the process of S-1 fails while the others wait for it: run() "
+                                       f"cancelled the still running processes of {touched} itself")
                 for t in asyncio.all_tasks(w.loop):
                     t.cancel()
                 return ok, (f"run() with {n} simulators where {'setup_done' if 'setup_fails' in m else 'the process'} of S-1 fails with "
